@@ -316,8 +316,9 @@ INSTS = [
 TEN = I.make2(2, 10, (tuple((p,) for p in (3, 1, 2, 4, 5, 6, 7, 8, 9, 10)), ((10,), (3,))),
               tuple(((1,),) if h not in (3, 10) else (((2,), (1,)) if h == 10 else ((1,), (2,)))
                     for h in range(1, 11)),
-              tuple((0, 1) for _ in range(10)))
-# a preference list of ten entries (rank 10 exists); few optimal classes
+              tuple((0, 0) if h in (1, 2, 3) else (0, 1) for h in range(1, 11)))
+# a preference list of ten entries (rank 10 exists) whose first three choices
+# have capacity 0, so the assigned entry is not the first one; few optimal classes
 OPTS_TEN = [
     (False, False, (("maxsize", ()), ("mincost", ())), None),
     (False, True, (("maxsize", ()),), None),
